@@ -142,7 +142,12 @@ impl<'a> W<'a> {
             }
             Msg::Triple { mode, key, m, sig, ctx, chosen } => {
                 let (ch, d) = (self.chunks(), self.disp());
-                self.emit(Step::Ver { mode, key: B(key), m: B(m), sig: B(sig), ctx: ctx.map(B), ch, chosen: chosen.map(|c| B(c.to_vec())), d });
+                let ksrc = match self.rng.below(8) {
+                    0 => 2,
+                    1 if key.len() == 32 && Pt::decode(&arr32(&key)).map(|p| p.is_identity()).unwrap_or(false) => 1,
+                    _ => 0,
+                };
+                self.emit(Step::Ver { mode, key: B(key), m: B(m), sig: B(sig), ctx: ctx.map(B), ch, chosen: chosen.map(|c| B(c.to_vec())), d, ksrc });
             }
             Msg::Entry { q, key, m, sig } => {
                 self.emit(Step::BQ { q, m: B(m), sig: B(sig), key: B(key) });
@@ -220,7 +225,7 @@ impl<'a> W<'a> {
     }
 
     fn new_signer(&mut self, s: u8) {
-        let how = self.rng.below(6) as u8;
+        let how = self.rng.below(7) as u8;
         let seed = self.rng.arr32();
         let (b, rng): (Vec<u8>, Option<Rng>) = match how {
             0 => (vec![], Some(self.rng_spec())),
@@ -232,7 +237,7 @@ impl<'a> W<'a> {
                 }
                 (v, None)
             }
-            2 => {
+            2 | 6 => {
                 let mut v = seed.to_vec();
                 v.extend_from_slice(&eddsa::public_key(&seed));
                 if self.faulty() {
@@ -448,11 +453,29 @@ impl<'a> W<'a> {
                 let mut out = ([0u8; 32], [0u8; 64]);
                 let zero_r = self.rng.chance(1, 4);
                 let s_is_l = zero_r && self.rng.coin();
+                // S given as a structured non-canonical value S' >= l (R built from S' mod l): must be rejected
+                let s_struct: Option<[u8; 32]> = if !zero_r && self.rng.chance(1, 3) {
+                    let b = dict::near_l_structured(&mut self.rng);
+                    if !refmodel::Sc::is_canonical_bytes(&b) {
+                        bump(&mut self.c, "fault:byz_S_structured_noncanonical");
+                        Some(b)
+                    } else {
+                        None
+                    }
+                } else {
+                    None
+                };
                 if zero_r {
                     bump(&mut self.c, "fault:byz_S_zero");
                 }
                 for _try in 0..24 {
-                    let r = if zero_r { refmodel::Sc::ZERO } else { refmodel::Sc::from_bytes_mod_order(&self.rng.arr32()) };
+                    let r = if zero_r {
+                        refmodel::Sc::ZERO
+                    } else if let Some(b) = &s_struct {
+                        refmodel::Sc::from_bytes_mod_order(b)
+                    } else {
+                        refmodel::Sc::from_bytes_mod_order(&self.rng.arr32())
+                    };
                     let guess = t[self.rng.below(8) as usize];
                     let rp = b.mul_le(&r.to_bytes()).sub(&guess);
                     let rb = rp.encode();
@@ -460,6 +483,9 @@ impl<'a> W<'a> {
                     let mut sg = [0u8; 64];
                     sg[..32].copy_from_slice(&rb);
                     sg[32..].copy_from_slice(&r.to_bytes());
+                    if let Some(b) = &s_struct {
+                        sg[32..].copy_from_slice(b);
+                    }
                     if s_is_l {
                         // S = l exactly: the smallest non-canonical S, congruent to the S = 0 that satisfies the equation
                         sg[32..].copy_from_slice(&sc::l().to_le_bytes());
@@ -469,7 +495,7 @@ impl<'a> W<'a> {
                         bump(&mut self.c, if s_is_l { "probe:byz_S_equals_l_equation_holds" } else { "probe:byz_small_order_equation_holds" });
                         break;
                     }
-                    if zero_r {
+                    if zero_r || s_struct.is_some() {
                         m.push(self.rng.below(256) as u8);
                     }
                 }
@@ -628,6 +654,36 @@ impl<'a> W<'a> {
             let m = self.rng.bytes(ml);
             let sig = eddsa::sign(&seeds[i], &m);
             entries.push((pubs[i].to_vec(), m, sig.to_vec()));
+        }
+        // exotic but valid entries, inside the property's domain: nonce r = 0 (R is the identity encoding) and
+        // the identity as key (any R = [S]B verifies); single and batch verification must both accept them
+        if n > 0 && self.rng.chance(1, 4) {
+            let pos = match self.rng.below(3) {
+                0 => 0,
+                1 => n - 1,
+                _ => self.rng.below(n as u64) as usize,
+            };
+            let i = self.rng.below(nsign as u64) as usize;
+            if self.rng.coin() {
+                bump(&mut self.c, "fault:batch_valid_signature_with_identity_R");
+                let (a_cl, _) = eddsa::expand(&seeds[i]);
+                let a_sc = refmodel::Sc::from_bytes_mod_order(&a_cl);
+                let rb = Pt::IDENTITY.encode();
+                let k = refmodel::Sc::from_wide(&RealSha512.hash(&[&rb, &pubs[i], &entries[pos].1]));
+                let mut sg = [0u8; 64];
+                sg[..32].copy_from_slice(&rb);
+                sg[32..].copy_from_slice(&k.mul(&a_sc).to_bytes());
+                entries[pos].0 = pubs[i].to_vec();
+                entries[pos].2 = sg.to_vec();
+            } else {
+                bump(&mut self.c, "fault:batch_valid_signature_under_identity_key");
+                let sv = refmodel::Sc::from_bytes_mod_order(&self.rng.arr32());
+                let mut sg = [0u8; 64];
+                sg[..32].copy_from_slice(&ed::basepoint().mul_le(&sv.to_bytes()).encode());
+                sg[32..].copy_from_slice(&sv.to_bytes());
+                entries[pos].0 = Pt::IDENTITY.encode().to_vec();
+                entries[pos].2 = sg.to_vec();
+            }
         }
         // corruption: most stay inside the property's domain
         if n > 0 && self.faulty() {
@@ -1015,6 +1071,10 @@ pub fn generate(seed: u64, run: u64, focus: &str, thorough: bool) -> Plan {
     for q in 0..2u8 {
         w.flush(q, true);
     }
+    // bounded liveness of the simulation itself: once faults stop, the queue drains within the step budget
+    let left = w.heap.len() as u64;
+    simcore::bump_by(&mut w.c, "net:undelivered_when_step_budget_ended", left);
+    simcore::bump_by(&mut w.c, "net:messages_posted", w.msgs.len() as u64);
     let ticks = w.now;
     Plan { family: "wire".into(), focus: focus.into(), seed, run, faults: w.c, ticks, steps: w.steps }
 }
